@@ -92,6 +92,11 @@ def gen_cases(ctx: Ctx):
     omits = ["order", "mode_gamma", "elast_settings"]
     for k, om in enumerate(omits if ctx.thorough() else [omits[ctx.seed % 3], omits[(ctx.seed + 1) % 3]]):
         add(interp=["spline", "krogh", "lsq_poly"][k % 3], order=3, nv=7, tgrid=(0, 100, 4), system=None, keys=MIXED[:9], law="power", omit=om)
+    # 3f. "every valid configuration": (a) a redundant component that disagrees with the symmetry relations by LESS than the residual
+    #     tolerance at every single volume (c22 listed 0.35 GPa above c11 in a cubic table of 8 volumes: misfit 0.06 per volume) — accepted,
+    #     the calculation completes; (b) a coupling that passes through exactly 0 at ONE volume — it is a component like any other
+    add(interp="lsq_poly", order=3, nv=8, tgrid=(0, 100, 4), system="cubic", keys=["11", "12", "44", "22"], law="power", redundant_offset=0.35)
+    add(interp="lsq_poly", order=3, nv=7, tgrid=(0, 100, 4), system=["trigonal7", "monoclinic"][ctx.seed % 2], keys=None, law="power", zero_at_one_volume=True)
     # 4. random mixtures
     n_rand = 250 if ctx.thorough() else 6
     for _ in range(n_rand):
@@ -124,6 +129,14 @@ def build(case, seed):
         del ds.settings["elast"]["settings"]["mode_gamma"]
     elif om == "elast_settings":
         del ds.settings["elast"]["settings"]
+    if case.get("redundant_offset"):
+        c11, c22 = ds.static_keys.index("11"), ds.static_keys.index("22")
+        ds.static_table[:, c22] = ds.static_table[:, c11] + float(case["redundant_offset"])
+    if case.get("zero_at_one_volume"):
+        cand = [c for c, k_ in enumerate(ds.static_keys) if k_[0] != k_[1] and int(k_[1]) >= 4]
+        if cand:
+            c0 = cand[case["idx"] % len(cand)]; z = 1 + (case["idx"] % (ds.nv - 1))
+            ds.static_table[:, c0] = ds.static_table[:, c0] - ds.static_table[z, c0]
     if case.get("gamma_acoustic") == "zero":
         ds.freqs[:, 0, :3] = 0.0
         ds.freqs[0, 0, 1] = -0.1234       # one small negative residue next to exact zeros, as DFPT output mixes them
@@ -170,6 +183,14 @@ def evaluate(case, seed):
         cv = numpy.asarray(calc.qha_calculator.volume_base.heat_capacity)
         t0 = (t == 0)
         info = {"nt": len(t), "ntv": len(v), "cv_nonpositive": int((cv <= 0).sum()), "keys": len(calc.modulus_keys)}
+        # every component the table supplies with a non-zero value at SOME volume is a component of the result ("finite on the whole grid"
+        # is a statement about all of them)
+        supplied = [k_ for c, k_ in enumerate(ds.static_keys) if numpy.any(ds.static_table[:, c] != 0)]
+        have = {"%d%d" % tuple(k_.v) for k_ in calc.modulus_keys}
+        missing = [k_ for k_ in supplied if "".join(sorted(k_)) not in have and k_ not in have]
+        if missing:
+            fails.append(("components-missing", f"components {missing} of the static table are absent from the result (the calculation has no value for them)",
+                          {"missing": missing, "have": sorted(have)}))
         # (b) isothermal
         for kind, store, mask in (("isothermal", calc.modulus_isothermal, numpy.ones((len(t), len(v)), bool)),
                                   ("adiabatic", calc.modulus_adiabatic, (cv > 0) | t0[:, None])):
